@@ -1,5 +1,96 @@
 import KrroodVerif.Sexp
+import KrroodVerif.Model.Rule
+/-!
+Driver for C08. Case line:
+
+`(prog (dom d₁ … dₙ) (root (h e…) (c k…) <kid>…))` with `<kid> ::= (ref|alt|next (h e…) (c k…) <kid>…)`
+
+`h` = the domain elements for which the block's condition holds, `c` = the classes of the `Add` conclusions
+written in the block, kids in textual order.
+
+Output: `model=` builder + evaluator as the code is today (`Quirks.today`), `model_fixed=` all three quirks off,
+`model_q…=` every other quirk setting (a repair of one defect must still correspond), `spec=` the ripple-down
+rules interpreter `fire` over the domain, `trig=` the findings whose decidable trigger the program satisfies.
+When a finding is repaired in /repo: switch its flag off in `current` below and drop its id from `trig`
+(its `model_q…` line keeps the old behaviour printable); nothing else changes.
+
+Rows are `class:element`, sorted, de-duplicated (the property's observation is a set); `a|b:element` = one of the
+classes a, b (two conclusions in one Python `set`).
+-/
 namespace KrroodVerif.Drive.C08
-/-- stub: replaced when the model for C08 is built -/
-def run (_ : Sexp) : String := "model=unimplemented\tspec=unimplemented\ttrig="
+open KrroodVerif.Rdr
+
+def nats (xs : List Sexp) : Option (List Nat) := xs.mapM Sexp.asNat?
+
+def parseKind : String → Option Kind
+  | "ref" => some .ref | "alt" => some .alt | "next" => some .next | _ => none
+
+-- parse a block; blocks are numbered in textual (pre-)order; returns the skeleton and the payload rows
+mutual
+partial def parseBlock (items : List Sexp) (acc : Array Block) : Option (Prog × Array Block) :=
+  match items with
+  | .list (.atom "h" :: hs) :: .list (.atom "c" :: cs) :: kids => do
+    let h ← nats hs
+    let c ← nats cs
+    let b := acc.size
+    let (k, acc) ← parseKids kids (acc.push { cond := h, concl := c })
+    pure (.mk b k, acc)
+  | _ => none
+partial def parseKids (items : List Sexp) (acc : Array Block) : Option (Kids × Array Block) :=
+  match items with
+  | [] => some (.nil, acc)
+  | .list (.atom k :: body) :: rest => do
+    let kd ← parseKind k
+    let (p, acc) ← parseBlock body acc
+    let (r, acc) ← parseKids rest acc
+    pure (.cons kd p r, acc)
+  | _ => none
+end
+
+def pad (n : Nat) : String := let s := toString n; "".pushn '0' (4 - s.length) ++ s
+
+def showRow (r : List Nat × Nat) : String :=
+  "|".intercalate (sortStrings (r.1.map pad)) ++ ":" ++ toString r.2
+
+def showRows (rs : List (List Nat × Nat)) : String :=
+  showList (dedupStrings (sortStrings (rs.map showRow)))
+
+def showObs : Obs → String
+  | .ok rows => showRows rows
+  | .raised => "exc:construction"
+  | .cyclic => "exc:RecursionError"
+  | .mismatch => "internal:evalT-vs-evalK"
+
+def dedupName : Dedup → String
+  | .byBinding => "b" | .byConclusion => "c" | .off => "o"
+
+/-- the quirk setting of the code as it is today (every defect still open) -/
+def current : Quirks := Quirks.today
+
+def run (s : Sexp) : String :=
+  match s with
+  | .list [.atom "prog", .list (.atom "dom" :: ds), .list (.atom "root" :: body)] =>
+    match nats ds, parseBlock body #[] with
+    | some dom, some (p, blocks) =>
+      let pay := Payload.ofList blocks.toList
+      let others : List Quirks :=
+        [true, false].flatMap fun c => [true, false].flatMap fun r =>
+          [Dedup.byBinding, .byConclusion, .off].filterMap fun d =>
+            let q : Quirks := ⟨c, r, d⟩
+            if q = current || q = Quirks.fixed then none else some q
+      let alt := others.map fun q =>
+        s!"model_q{if q.climbOnce then 1 else 0}{if q.refNoRelink then 1 else 0}{dedupName q.dedup}=" ++
+          showObs (model q pay p dom)
+      let trig :=
+        (if p.trigClimb then ["F-C08-1"] else []) ++
+        (if p.trigRef true then ["F-C08-2"] else []) ++
+        (if p.trigNextScope pay dom then ["F-C08-3"] else [])
+      "\t".intercalate
+        ([ "model=" ++ showObs (model current pay p dom),
+           "model_fixed=" ++ showObs (model Quirks.fixed pay p dom),
+           "spec=" ++ showRows ((spec pay p dom).map fun (c, x) => ([c], x)),
+           "trig=" ++ ",".intercalate trig,
+           "unamb=" ++ toString p.unambiguous ] ++ alt)
+    | _, _ => "error=bad-case"
+  | _ => "error=bad-case"
 end KrroodVerif.Drive.C08
